@@ -140,6 +140,17 @@ func runWeightedSiblings(res *core.Result, dir string, stateOnly bool) {
 						res.Count("sibling_method_pairs", 1)
 						ua, ub := stateUpdates(a), stateUpdates(b)
 						res.Count("sibling_state_updates", len(ua))
+						ga, gb := siblingGuards(a), siblingGuards(b)
+						res.Count("sibling_exit_guards", len(ga))
+						if strings.Join(ga, "\n") != strings.Join(gb, "\n") {
+							res.Add(core.Finding{
+								Rule: "TWIN.sibguard",
+								Key:  fmt.Sprintf("TWIN.sibguard|%s/%s|%s~%s|%s", dir, n, t, w, mname),
+								Pos:  core.Pos(b.Pos()), Func: w + "." + mname,
+								Msg: fmt.Sprintf("%s.%s and its sibling %s.%s in %s/%s leave under different conditions: {%s} vs {%s} (an exhausted or empty iterator must behave the same in both)",
+									t, mname, w, b.Name.Name, dir, n, strings.Join(ga, "; "), strings.Join(gb, "; ")),
+							})
+						}
 						if strings.Join(ua, "\n") != strings.Join(ub, "\n") {
 							res.Add(core.Finding{
 								Rule: "TWIN.sibstate",
@@ -261,6 +272,46 @@ func stateUpdates(fd *ast.FuncDecl) []string {
 			if rooted(x.X) {
 				out = append(out, norm(types.ExprString(x.X)+x.Tok.String()))
 			}
+		}
+		return true
+	})
+	sort.Strings(out)
+	return out
+}
+
+// siblingGuards returns the sorted, Weighted-normalised single-statement exit
+// guards of a method: `if cond { return … }`, `{ continue }`, `{ break }`,
+// `{ panic(…) }`.
+func siblingGuards(fd *ast.FuncDecl) []string {
+	norm := func(s string) string {
+		s = weightedRe.ReplaceAllStringFunc(s, func(m string) string { return strings.ToLower(m[len(m)-1:]) })
+		return strings.ReplaceAll(s, "Weighted", "")
+	}
+	var out []string
+	ast.Inspect(fd.Body, func(n ast.Node) bool {
+		is, ok := n.(*ast.IfStmt)
+		if !ok || is.Init != nil || len(is.Body.List) != 1 {
+			return true
+		}
+		exit := ""
+		switch x := is.Body.List[0].(type) {
+		case *ast.ReturnStmt:
+			var rs []string
+			for _, r := range x.Results {
+				rs = append(rs, types.ExprString(r))
+			}
+			exit = "return " + strings.Join(rs, ", ")
+		case *ast.BranchStmt:
+			exit = x.Tok.String()
+		case *ast.ExprStmt:
+			if c, ok := x.X.(*ast.CallExpr); ok {
+				if id, ok := c.Fun.(*ast.Ident); ok && id.Name == "panic" {
+					exit = "panic"
+				}
+			}
+		}
+		if exit != "" {
+			out = append(out, norm(types.ExprString(is.Cond)+" -> "+exit))
 		}
 		return true
 	})
